@@ -122,6 +122,93 @@ class Tree:
             self._index(m)
         if self.parse_errors:
             raise Undecided("syntax errors: " + "; ".join(self.parse_errors))
+        self.renamed: List[str] = []
+        self._canonical_params()
+
+    # --- parameter names are not semantics: rename them back to the names the rules were written with
+    def _canonical_params(self):
+        import json
+
+        spec = Path(__file__).resolve().parent.parent / "spec" / "param_names.json"
+        if not spec.exists() or os.environ.get("VERIF_NO_CANON"):
+            return
+        table = json.loads(spec.read_text())
+        for key, want in table.items():
+            f = self.funcs.get(key)
+            if f is None:
+                continue
+            a = f.node.args
+            params = a.posonlyargs + a.args + a.kwonlyargs
+            have = [x.arg for x in params]
+            if len(have) != len(want) or have == want:
+                continue
+            mapping = {h: w for h, w in zip(have, want) if h != w}
+            # refuse if a new name would capture an existing local / free name of the function
+            used = {n.id for n in ast.walk(f.node) if isinstance(n, ast.Name)}
+            if any(w in used and w not in have for w in mapping.values()):
+                continue
+            for x in params:
+                if x.arg in mapping:
+                    x.arg = mapping[x.arg]
+            self._rename(f.node, mapping, top=True)
+            self.renamed.append(f"{key}: {mapping}")
+        # local variables: same number of bindings of the same kinds in the same order => positional rename
+        lspec = spec.with_name("local_names.json")
+        if lspec.exists():
+            ltable = json.loads(lspec.read_text())
+            for key, want in ltable.items():
+                f = self.funcs.get(key)
+                if f is None:
+                    continue
+                have = local_bindings(f.node)
+                if len(have) != len(want) or have == want or [k for _, k in have] != [k for _, k in want]:
+                    continue
+                mapping = {h[0]: w[0] for h, w in zip(have, want) if h[0] != w[0]}
+                a = f.node.args
+                pnames = {x.arg for x in a.posonlyargs + a.args + a.kwonlyargs}
+                used = {n.id for n in ast.walk(f.node) if isinstance(n, ast.Name)} | pnames
+                if any(w in used and w not in mapping for w in mapping.values()) or len(set(mapping.values())) != len(mapping):
+                    continue
+                self._rename(f.node, mapping, top=True)
+                for n in ast.walk(f.node):
+                    if isinstance(n, ast.ExceptHandler) and n.name in mapping:
+                        n.name = mapping[n.name]
+                self.renamed.append(f"{key}: locals {mapping}")
+
+    def _rename(self, node, mapping, top=False):
+        for child in ast.iter_child_nodes(node):
+            if isinstance(child, FUNC_TYPES + (ast.Lambda,)):
+                a = child.args
+                own = {x.arg for x in a.posonlyargs + a.args + a.kwonlyargs}
+                if a.vararg:
+                    own.add(a.vararg.arg)
+                if a.kwarg:
+                    own.add(a.kwarg.arg)
+                sub = {k: v for k, v in mapping.items() if k not in own}
+                # defaults / decorators are evaluated in the enclosing scope
+                for d in list(a.defaults) + [d for d in a.kw_defaults if d is not None] + list(getattr(child, "decorator_list", [])):
+                    self._rename_expr(d, mapping)
+                if sub:
+                    body = child.body if isinstance(child.body, list) else [child.body]
+                    for b in body:
+                        self._rename_expr(b, sub) if not isinstance(b, ast.stmt) else self._rename_stmt(b, sub)
+                continue
+            if isinstance(child, ast.Name) and child.id in mapping:
+                child.id = mapping[child.id]
+            elif isinstance(child, ast.keyword):
+                self._rename(child, mapping)
+                continue
+            self._rename(child, mapping)
+
+    def _rename_expr(self, e, mapping):
+        if isinstance(e, ast.Name) and e.id in mapping:
+            e.id = mapping[e.id]
+        self._rename(e, mapping)
+
+    def _rename_stmt(self, s, mapping):
+        self._rename(s, mapping)
+        if isinstance(s, ast.Name) and s.id in mapping:
+            s.id = mapping[s.id]
 
     # --- indexing
     def _index(self, m: Module):
@@ -280,3 +367,81 @@ class Tree:
             if c in m and (not strict or k is not c):
                 out.append(k)
         return out
+
+
+def local_bindings(fn) -> list:
+    """[(name, kind)] of the local names of a function in order of first binding (source order);
+    nested function / class bodies, comprehension and lambda variables are not included"""
+    out = []
+    seen = set()
+
+    def add(name, kind):
+        if name not in seen:
+            seen.add(name)
+            out.append([name, kind])
+
+    def targets(t, kind):
+        if isinstance(t, ast.Name):
+            add(t.id, kind)
+        elif isinstance(t, (ast.Tuple, ast.List)):
+            for e in t.elts:
+                targets(e, kind)
+        elif isinstance(t, ast.Starred):
+            targets(t.value, kind)
+
+    def visit(node):
+        for child in ast.iter_child_nodes(node):
+            if isinstance(child, FUNC_TYPES + (ast.ClassDef,)):
+                add(child.name, "def")
+                continue
+            if isinstance(child, (ast.Lambda, ast.ListComp, ast.SetComp, ast.DictComp, ast.GeneratorExp)):
+                continue
+            if isinstance(child, ast.Assign):
+                visit(child.value)
+                for t in child.targets:
+                    targets(t, "assign")
+                continue
+            if isinstance(child, (ast.AnnAssign, ast.AugAssign)):
+                if child.value is not None:
+                    visit(child.value)
+                targets(child.target, "assign")
+                continue
+            if isinstance(child, (ast.For, ast.AsyncFor)):
+                visit(child.iter)
+                targets(child.target, "for")
+                for b in child.body + child.orelse:
+                    visit_stmt(b)
+                continue
+            if isinstance(child, (ast.With, ast.AsyncWith)):
+                for i in child.items:
+                    visit(i.context_expr)
+                    if i.optional_vars is not None:
+                        targets(i.optional_vars, "with")
+                for b in child.body:
+                    visit_stmt(b)
+                continue
+            if isinstance(child, ast.ExceptHandler):
+                if child.name:
+                    add(child.name, "except")
+                for b in child.body:
+                    visit_stmt(b)
+                continue
+            if isinstance(child, ast.NamedExpr):
+                visit(child.value)
+                targets(child.target, "walrus")
+                continue
+            if isinstance(child, (ast.Import, ast.ImportFrom)):
+                for a in child.names:
+                    add((a.asname or a.name).split(".")[0], "import")
+                continue
+            visit(child)
+
+    def visit_stmt(s):
+        holder = ast.Module(body=[s], type_ignores=[])
+        visit(holder)
+
+    for s in fn.body:
+        visit_stmt(s)
+    a = fn.args
+    params = {x.arg for x in a.posonlyargs + a.args + a.kwonlyargs}
+    return [x for x in out if x[0] not in params]
